@@ -4,6 +4,7 @@
   Guards (`Gen.seqx*Bad`), the flag tables (`Gen.flagAllowed*`, `Gen.flagAlias*`) and
   `Gen.flagsLenBad` are regenerated from `Sequence.outputForSEQXFile` / `Element.addFlags`.
 -/
+import BB.Proofs.Basic
 import Mathlib.Tactic.Linarith
 import BB.Properties.C14
 
@@ -119,5 +120,138 @@ theorem flags_stored (e : Element) (ch : Chan) (fl : List Val) (ent : ChEntry) (
 /-- where no flags were set, the flags variant reports [0, 0, 0, 0] -/
 theorem default_flags (c : ChOutF) (h : chFlags c = none) : (chFlags c).getD [0, 0, 0, 0] = [0, 0, 0, 0] := by
   simp [h]
+
+/-! ### the package mirrors the forged elements, position by position and channel by channel -/
+
+theorem transpose_getElem? {α : Type} (nCh : ℕ) (rows : List (List α)) (hall : ∀ r ∈ rows, r.length = nCh)
+    (i : ℕ) (hi : i < nCh) (p : ℕ) (hp : p < rows.length) :
+    ((transpose nCh rows)[i]?).bind (·[p]?) = (rows[p]?).bind (·[i]?) := by
+  unfold transpose
+  simp only [List.getElem?_map, List.getElem?_range hi, Option.map_some, Option.bind_some]
+  have hfm : ∀ (dflt : α) (l : List (List α)), (∀ r ∈ l, r.length = nCh) →
+      l.filterMap (fun r => r[i]?) = l.map (fun r => (r[i]?).getD dflt) := by
+    intro dflt l
+    induction l with
+    | nil => intro _; rfl
+    | cons r rs ih =>
+      intro hl
+      have hr : i < r.length := by rw [hl r (by simp)]; exact hi
+      simp only [List.filterMap_cons, List.getElem?_eq_getElem hr, List.map_cons, Option.getD_some]
+      rw [ih (fun r' hr' => hl r' (by simp [hr']))]
+  have hr0 : i < (rows[p]).length := by rw [hall _ (List.getElem_mem hp)]; exact hi
+  rw [hfm (rows[p][i]) rows hall]
+  have hr : i < (rows[p]).length := hr0
+  simp [List.getElem?_eq_getElem hp, List.getElem?_eq_getElem hr]
+
+/-- **what `outputForSEQXFile` delivers**: with `P` the per-position forged elements of
+    `_prepareForOutputting` (equal to `forge(True, True)` by C10's `output_path_equals_forge`) and
+    `chans` the channels of element 1, the package holds for channel `i` and position `p` exactly
+    the (waveform in volts, marker 1, marker 2) of channel `chans[i]` of `P[p]`; the five
+    sequencing lists hold, in position order, the values of a sequencing entry that passed the
+    AWG70000A checks; the amplitudes are the channel amplitudes in channel order (padded for a
+    single channel); the name is the sequence's name -/
+theorem seqx_content (s : Sequence) (d : Deferred SEQXPkg) (pkg : SEQXPkg)
+    (h : s.outputForSEQXFile = .ok d) (hp : d.pkg = some pkg) :
+    ∃ (P : List (Dict Chan ChOutF)) (chans : List Chan) (amps : List ℚ),
+      s.prepareForOutputting = .ok P ∧
+      pkg.amplitudes = padAmplitudes amps ∧ amps.length = chans.length ∧ pkg.seqname = s.name ∧ pkg.flags = none ∧
+      (∀ i p, i < chans.length → p < P.length → ∃ cell, (P[p]?).bind (fun el => (chans[i]?).map (seqxCell el)) = some (.ok cell) ∧
+          ((pkg.wfms[i]?).bind (·[p]?)) = some cell) ∧
+      (∀ p, p < P.length → ∃ q, Dict.get? s.sequencing ((p + 1 : ℕ) : ℤ) = some q ∧ seqxSeqCheck q (P.length : ℤ) = .ok () ∧
+          pkg.trig_waits[p]? = some q.twait ∧ pkg.nreps[p]? = some q.nrep ∧ pkg.event_jumps[p]? = some q.jump_input ∧
+          pkg.event_jump_to[p]? = some q.jump_target ∧ pkg.go_to[p]? = some q.goto) := by
+  unfold outputForSEQXFile at h
+  split at h
+  · cases h
+  · rename_i P hP
+    split at h
+    · cases h
+    · split at h
+      · cases h
+      · rename_i chans _
+        split at h
+        · cases h
+        · rename_i amps hamps
+          split at h
+          · cases h
+          · rename_i obs _
+            split at h
+            · split at h
+              · cases h
+              · cases h; cases hp
+            · rename_i rows hrows
+              cases h
+              simp only [Option.some.injEq] at hp
+              subst hp
+              have hl := mapM_ok_length _ _ _ hrows
+              have hla := mapM_ok_length _ _ _ hamps
+              simp only [List.length_zip, List.length_range, Nat.min_self] at hl
+              refine ⟨P, chans, amps, hP, rfl, hla, rfl, rfl, ?_, ?_⟩
+              · intro i p hi hpp
+                have hz : p < (P.zip (List.range P.length)).length := by simp; exact hpp
+                have hr : p < rows.length := by omega
+                have er := mapM_ok_getElem _ _ _ hrows p hz hr
+                simp only [List.getElem_zip, List.getElem_range] at er
+                unfold seqxRow at er
+                simp only at er
+                cases hrow : chans.mapM (seqxCell P[p]) with
+                | error e => rw [hrow] at er; cases er
+                | ok row =>
+                  rw [hrow] at er
+                  simp only at er
+                  have hrl := mapM_ok_length _ _ _ hrow
+                  have hi' : i < row.length := by omega
+                  have ec := mapM_ok_getElem _ _ _ hrow i hi hi'
+                  refine ⟨row[i], ?_, ?_⟩
+                  · simp [List.getElem?_eq_getElem hpp, List.getElem?_eq_getElem hi, ec]
+                  · -- the row stored for position p is `row`
+                    have hrowp : (rows[p]).1 = row := by
+                      split at er
+                      · cases er
+                      · split at er
+                        · cases er
+                        · simp only [Except.ok.injEq] at er
+                          rw [← er]
+                    -- every stored row has one cell per channel
+                    have hall : ∀ r ∈ rows.map (·.1), r.length = chans.length := by
+                      intro r hr'
+                      obtain ⟨x, hx, rfl⟩ := List.mem_map.mp hr'
+                      obtain ⟨k, hk, rfl⟩ := List.getElem_of_mem hx
+                      have hzk : k < (P.zip (List.range P.length)).length := by simp; omega
+                      have ek := mapM_ok_getElem _ _ _ hrows k hzk hk
+                      unfold seqxRow at ek
+                      split at ek
+                      · cases ek
+                      · rename_i rowk hrowk
+                        split at ek
+                        · cases ek
+                        · split at ek
+                          · cases ek
+                          · simp only [Except.ok.injEq] at ek
+                            rw [← ek]
+                            exact mapM_ok_length _ _ _ hrowk
+                    have := transpose_getElem? chans.length (rows.map (·.1)) hall i hi p (by simpa using hr)
+                    simp only [seqxPackage]
+                    rw [this]
+                    simp [List.getElem?_eq_getElem hr, hrowp, List.getElem?_eq_getElem hi']
+              · intro p hpp
+                have hz : p < (P.zip (List.range P.length)).length := by simp; exact hpp
+                have hr : p < rows.length := by omega
+                have er := mapM_ok_getElem _ _ _ hrows p hz hr
+                simp only [List.getElem_zip, List.getElem_range] at er
+                unfold seqxRow at er
+                simp only at er
+                split at er
+                · cases er
+                · split at er
+                  · cases er
+                  · rename_i q hq
+                    split at er
+                    · cases er
+                    · rename_i hchk
+                      simp only [Except.ok.injEq] at er
+                      refine ⟨q, hq, hchk, ?_⟩
+                      simp only [seqxPackage, List.getElem?_map, List.getElem?_eq_getElem hr, ← er, Option.map_some]
+                      exact ⟨trivial, trivial, trivial, trivial, trivial⟩
 
 end BB.C15
